@@ -13,7 +13,7 @@ XPath 1.0 implementation - part 3 (functions)
 import math
 import decimal
 from collections.abc import Iterator
-from typing import Any, cast
+from typing import Any, cast, Optional
 
 import elementpath.aliases as ta
 
@@ -283,13 +283,12 @@ def evaluate__translate(self: XPathFunction, context: ta.ContextType = None) -> 
         message = "the 3rd argument of fn:translate() cannot be the empty sequence"
         raise self.error('XPTY0004', message)
 
-    if len(map_string) == len(trans_string):
-        return arg.translate(str.maketrans(map_string, trans_string))
-    elif len(map_string) > len(trans_string):
-        k = len(trans_string)
-        return arg.translate(str.maketrans(map_string[:k], trans_string, map_string[k:]))
-    else:
-        return arg.translate(str.maketrans(map_string, trans_string[:len(map_string)]))
+    table: dict[int, Optional[int]] = {}
+    for k, char in enumerate(map_string):
+        if ord(char) not in table:
+            # If a character occurs more than once the first occurrence is used
+            table[ord(char)] = ord(trans_string[k]) if k < len(trans_string) else None
+    return arg.translate(table)
 
 
 @method(function('substring', nargs=(2, 3),
